@@ -79,7 +79,8 @@ Proof.
   destruct (length (p_hops p) <=? p_ch p + 1)%nat eqn:Ef; destruct en.
   - intros H; inversion H; subst; cbn. rewrite !upd_length. auto.
   - discriminate.
-  - destruct (nth_error (p_hops p) (S (p_ch p))); [|discriminate].
+  - destruct (63 <? S (p_ch p))%nat; [discriminate|].
+    destruct (nth_error (p_hops p) (S (p_ch p))); [|discriminate].
     destruct (nth_error (p_infos p) (S seg)); [|discriminate].
     intros H; inversion H; subst; cbn. rewrite !upd_length. auto.
   - intros H; inversion H; subst; cbn. rewrite !upd_length. auto.
@@ -95,6 +96,7 @@ Proof.
   destruct (nth_error (p_hops p) (p_ch p)) as [h|] eqn:Eh; [|discriminate].
   destruct (nth_error (p_infos p) (p_ci p)) as [inf|] eqn:Ei; [|discriminate].
   destruct (length (p_hops p) <=? p_ch p + 1)%nat eqn:Ef; [discriminate|].
+  destruct (63 <? S (p_ch p))%nat; [discriminate|].
   destruct en; [discriminate|].
   intros H; inversion H; subst; cbn. rewrite !upd_length.
   apply Nat.leb_gt in Ef. repeat split; lia.
@@ -135,6 +137,7 @@ Proof.
     destruct (nth_error (p_hops p1) (p_ch p1)) as [h|]; [|discriminate].
     destruct (nth_error (p_infos p1) (p_ci p1)) as [inf|]; [|discriminate].
     destruct (length (p_hops p1) <=? p_ch p1 + 1)%nat; [discriminate|].
+    destruct (63 <? S (p_ch p1))%nat; [discriminate|].
     destruct en; [discriminate|].
     injection Ee as Hp Hal Heg Hv. rewrite <- Heg. rewrite hop_egress_inv.
     unfold sdk_validate_hop in Hv. cbn [andb negb] in Hv.
